@@ -355,7 +355,7 @@ package mux
 //@   atcall tree.Tree.Clean [C19] delegate: arg0 == r.tree && arg1 == ""
 //
 //@ fn Router.Routes
-//@   requires routerOK(r) && allSafe()
+//@   requires routerTree(r) && allSafe()
 //@   callsonly [C19] tree.Tree.Routes
 //@   ensures [C19] delegate: result == callresult("tree.Tree.Routes", 1, 0)
 //
@@ -674,11 +674,28 @@ package mux
 //@   requires o != nil
 //@ fn buildOption
 //@   requires forall k int :: 0 <= k && k < len(o) ==> o[k] != nil
+//@   ensures [C05] result: result1 == nil ==> result0 != nil
 //@   inv 1 [C05] bound: -1 <= rangeindex && rangeindex < len(o) && (forall k int :: 0 <= k && k < len(o) ==> o[k] != nil)
 //@ fn f2i
 //@   inv 1 [C05] bound: -1 <= rangeindex && rangeindex < len(f)
 //@ fn Group.Routers
 //@   requires g != nil
+//@   nopanic
+//@   ensures [C13] the-list: result == g.routers
 //@ fn Group.Router
 //@   requires g != nil && (forall k int :: 0 <= k && k < len(g.routers) ==> g.routers[k] != nil && g.routers[k].tree != nil)
 //@   inv 1 [C05] bound: -1 <= rangeindex && rangeindex < len(g.routers)
+//@ fn Group.Add$1
+//@   requires rr != nil && rr.tree != nil && r != nil && r.tree != nil
+//@ fn Group.Remove$1
+//@   requires r != nil && r.tree != nil
+//@ fn NewRouter
+//@   maypanic
+//@   requires forall k int :: 0 <= k && k < len(o) ==> o[k] != nil
+//@ fn NewGroup
+//@   maypanic
+//@   requires forall k int :: 0 <= k && k < len(o) ==> o[k] != nil
+//@ fn Group.Routes
+//@   requires g != nil && allSafe() && (forall k int :: 0 <= k && k < len(g.routers) ==> g.routers[k] != nil && routerTree(g.routers[k]))
+//@   inv 1 [C05] bound: -1 <= rangeindex && rangeindex < len(routers) && routers == g.routers && g.routers == old(g.routers) && allSafe() &&
+//@        (forall k int :: 0 <= k && k < len(g.routers) ==> g.routers[k] != nil && routerTree(g.routers[k]))
